@@ -32,7 +32,7 @@ REAL = ["bec2format.bec2file (InitEccAuthBlock, EccEncryptor, EccDecryptor)", "b
         "ecdsa (keys, ecdh, ellipticcurve, util.randrange)", "pyaes"]
 STUBS = ["RNG: SimRng behind os.urandom shims", "key generation observer (register_PrivateEccKey)",
          "device model: RefP256 + RefAES", "openssl binary (thorough tier sample)"]
-PROBES = ["runs-with-assertions-disabled", "pack-after-unpack-same-object", "subclass-with-own-default-keys-used-first", "selector-changed-between-packs", "file-level-pack", "ext-encryptors-not-a-list", "shared-encryptor-two-threads", "keystore-decoys", "default-recipient", "selector-nonzero-default", "edge-recipient-scalar", "edge-ephemeral-scalar",
+PROBES = ["runs-with-assertions-disabled", "invalid-block-presented-twice", "pack-after-unpack-same-object", "subclass-with-own-default-keys-used-first", "selector-changed-between-packs", "file-level-pack", "ext-encryptors-not-a-list", "shared-encryptor-two-threads", "keystore-decoys", "default-recipient", "selector-nonzero-default", "edge-recipient-scalar", "edge-ephemeral-scalar",
           "randrange-retry", "session-key-trailing-zero", "point-off-curve-rejected", "point-coordinate-ge-p",
           "point-zero", "point-negated-still-on-curve", "openssl-agrees"]
 THOROUGH_ONLY_PROBES = ["openssl-agrees"]
@@ -374,6 +374,13 @@ def run(case):
                     res = "returned"
                 except Exception as e:
                     res = "raised"
+                    # the caller tries the same block again with the same decryptor object
+                    try:
+                        blk, k3 = bf.InitEccAuthBlock.unpack(bad, [dec])
+                        res = "returned"
+                        out.probes["second-attempt-differs-from-first"] += 1
+                    except Exception:
+                        out.probes["invalid-block-presented-twice"] += 1
                 out.ev("damaged", dm[0], valid, res)
                 if not valid:
                     if res == "returned":
